@@ -1,0 +1,21 @@
+//go:build verif
+
+package rdb
+
+// BucketsForVerif runs the builder's own sort and bucket split on the given
+// keys and returns the sorted keys and the bucket offsets. Verification builds only.
+func BucketsForVerif(keys [][]byte, minBucketSize, maxBucketNum int) (sorted [][]byte, buckets [][2]int) {
+	b := &Builder{}
+	for _, k := range keys {
+		b.values = append(b.values, keyValues{key: copyBytes(k), values: [][]byte{nil}})
+	}
+	b.sortDataset()
+	b.createBuckets(minBucketSize, maxBucketNum)
+	for _, v := range b.values {
+		sorted = append(sorted, v.key)
+	}
+	for _, x := range b.buckets {
+		buckets = append(buckets, [2]int{x.startOffset, x.endOffset})
+	}
+	return
+}
